@@ -3,7 +3,7 @@
      exactly that of the naive constructor, so every C09 theorem applies;
    - a zone whose utcoffset changes between the operands: the inverse law FAILS (refuted). *)
 From Coq Require Import ZArith List Bool Lia ZifyBool.
-From V Require Import base.Cal gen.RdTables rd.RdBase rd.RdModel rd.RdSpec rd.RdAddThm rd.RdDiffThm
+From V Require Import base.Cal gen.RdTables rd.RdBase rd.RdModel rd.RdSpec rd.RdAddThm rd.RdDiffThm rd.RdAddThm2
   rd.RdAwareModel.
 Import ListNotations.
 Open Scope Z_scope.
@@ -134,3 +134,83 @@ Example mk_diff_aware_local_example :
   mk_diff_aware ny2020 (PDT 2020 5 31 8 0 0 0) (PDT 2020 4 30 12 0 0 0)
   = mk_diff (PDT 2020 5 31 8 0 0 0) (PDT 2020 4 30 12 0 0 0).
 Proof. vm_compute. reflexivity. Qed.
+
+(* ---------------------------------------------------------------- guard = complement of the finding *)
+(* The inverse law for distinct tzinfo objects holds EXACTLY when the utcoffset at dt1 equals the
+   utcoffset at dt2 shifted by the result's years/months (the value `dtm` the residual is taken
+   from): then the UTC residual is the wall-clock residual.  This is the negation of the matcher
+   of finding F-C09-distinct-tzinfo (check_C09.py m_distinct_tzinfo_offset_change); nothing is
+   assumed about the offsets at dt2 or at the other month shifts the loop visits. *)
+Lemma diff_loop_aw_shape off lt dt1 dt2 : valid_dt dt2 = true ->
+  forall fuel months m' x,
+  diff_loop_aw fuel off lt dt1 dt2 months (shifted dt2 months) = Ok (m', x) ->
+  x = shifted dt2 m'.
+Proof.
+  intros V. induction fuel as [|n IH]; intros months m' x H; [discriminate|].
+  cbn [diff_loop_aw] in H.
+  destruct (ulin off dt1) as [u1|e]; [|discriminate]. cbn [bind] in H.
+  destruct (ulin off (shifted dt2 months)) as [um|e]; [|discriminate]. cbn [bind] in H.
+  destruct (if lt then um <? u1 else u1 <? um).
+  - set (months' := months + (if lt then 1 else -1)) in *.
+    destruct (add_dt (set_months rd0 months') dt2) as [y|e] eqn:E; [|discriminate]. cbn [bind] in H.
+    rewrite (add_set_months_shape _ _ _ V E) in H. apply IH in H. exact H.
+  - injection H as <- <-. reflexivity.
+Qed.
+
+Theorem mk_diff_aware_inverse off f y1 m1 d1 hh1 mi1 ss1 us1 y2 m2 d2 hh2 mi2 ss2 us2 d :
+  let dt1 := PDT y1 m1 d1 hh1 mi1 ss1 us1 in
+  let dt2 := PDT y2 m2 d2 hh2 mi2 ss2 us2 in
+  valid_dt dt1 = true -> valid_dt dt2 = true ->
+  mk_diff_aware off dt1 dt2 = Ok d ->
+  off (lin dt1) = Some f -> off (lin (shifted dt2 (rel_months (rel d)))) = Some f ->
+  add_dt d dt2 = Ok dt1.
+Proof.
+  intros dt1 dt2 V1 V2 H F1 Fm.
+  unfold mk_diff_aware in H. fold dt1 dt2 in H.
+  apply bind_ok in H. destruct H as (dtm0 & E0 & H).
+  rewrite (add_set_months_shape _ _ _ V2 E0) in H.
+  apply bind_ok in H. destruct H as (u1 & EU1 & H).
+  apply bind_ok in H. destruct H as (u2 & _ & H).
+  apply bind_ok in H. destruct H as ([months dtm] & EL & H).
+  pose proof (diff_loop_aw_shape off _ dt1 dt2 V2 _ _ _ _ EL) as ->.
+  apply bind_ok in H. destruct H as (um & EUM & H).
+  destruct (set_months_shape months) as (y & mo & ES & Hk & Hmo & _). rewrite ES in H.
+  cbn [rel f_years f_months] in H. injection H as <-.
+  set (delta := u1 - um) in *.
+  set (r := mkrel y mo 0 0 0 (delta mod us_day / us_sec + delta / us_day * 86400) (delta mod us_day mod us_sec)).
+  destruct (fix_rel_spec r) as (N & U & RM & YM). destruct (YM Hmo) as [EY EM]. cbn [r f_years f_months] in EY, EM.
+  unfold fix_rd in Fm |- *. cbn [rel leapdays ab wd] in Fm |- *. fold r in Fm |- *.
+  assert (EMo : rel_months (fix_rel r) = months) by (unfold rel_months; rewrite EY, EM; lia).
+  rewrite EMo in Fm.
+  (* the value the residual was taken from is a valid datetime: it was produced by the model of __add__ *)
+  assert (VS : valid_dt (shifted dt2 months) = true).
+  { destruct (Z.eq_dec months ((y1 - y2) * 12 + (m1 - m2))) as [->|NE].
+    - eapply add_dt_valid. rewrite <- (add_set_months_shape _ _ _ V2 E0). exact E0.
+    - (* after at least one loop step: the last add_dt produced it *)
+      clear - EL V2 NE. unfold diff_fuel in EL.
+      assert (G : forall fuel m0, m0 <> months ->
+                  diff_loop_aw fuel off (u1 <? u2) dt1 dt2 m0 (shifted dt2 m0) = Ok (months, shifted dt2 months) ->
+                  valid_dt (shifted dt2 months) = true).
+      { induction fuel as [|n IH]; intros m0 Hne H; [discriminate|].
+        cbn [diff_loop_aw] in H.
+        destruct (ulin off dt1) as [a|e]; [|discriminate]. cbn [bind] in H.
+        destruct (ulin off (shifted dt2 m0)) as [b|e]; [|discriminate]. cbn [bind] in H.
+        destruct (if u1 <? u2 then b <? a else a <? b).
+        - set (m0' := m0 + (if u1 <? u2 then 1 else -1)) in *.
+          destruct (add_dt (set_months rd0 m0') dt2) as [yv|e] eqn:E; [|discriminate]. cbn [bind] in H.
+          pose proof (add_set_months_shape _ _ _ V2 E) as ->.
+          destruct (Z.eq_dec m0' months) as [<-|N2]; [eapply add_dt_valid; exact E|].
+          apply (IH m0' N2 H).
+        - injection H as E1 _. contradiction. }
+      apply (G 3%nat ((y1 - y2) * 12 + (m1 - m2))); [congruence | exact EL]. }
+  unfold ulin in EU1, EUM. rewrite F1 in EU1. rewrite Fm in EUM.
+  assert (Eu1 : u1 = lin dt1 - f) by congruence.
+  assert (Eum : um = lin (shifted dt2 months) - f) by congruence. clear EU1 EUM.
+  assert (SA : spec_add (mkrd (fix_rel r) 0 abs0 None) dt2 = Some dt1).
+  { apply (spec_add_final _ _ _ months V1 V2 eq_refl); [rewrite EY, EM; exact Hk | exact VS |].
+    unfold dt2 at 1. rewrite U. unfold r, rel_us. cbn [f_days f_hours f_minutes f_seconds f_us].
+    unfold delta, us_day, us_sec. lia. }
+  assert (WF : wf_rd (mkrd (fix_rel r) 0 abs0 None) = true).
+  { unfold wf_rd. cbn [rel ab wd abs0 a_year a_month a_day opt_ok]. rewrite N. reflexivity. }
+  apply res_opt_some. rewrite add_dt_spec by assumption. exact SA.
+Qed.
